@@ -115,11 +115,10 @@ func c15QueryText(q c15Query, files []licFile) (string, string) {
 	case "variant":
 		return variant(f.Content, q.Arg), fmt.Sprintf("%s of %s", variantNames[q.Arg%len(variantNames)], f.Name)
 	case "twice":
-		heavy := append([]int{}, q.Edits...)
-		for k := 0; k < 6+q.Arg%20; k++ {
-			heavy = append(heavy, q.Arg*31+k*97)
-		}
-		return "first copy\n" + editWords(f.Content, q.Edits[:1]) + "\nsecond copy\n" + editWords(f.Content, heavy) + "\nthe end\n", fmt.Sprintf("%s twice (1 and %d edits)", f.Name, len(heavy))
+		// the same license two times, neither copy verbatim: the first with one word changed, the second with filler
+		// words inserted (every word of the license still there, the edit distance large)
+		second, _ := c15QueryText(c15Query{Kind: "inserted", File: q.File, Arg: 6 + q.Arg%9, Edits: append(append([]int{}, q.Edits...), q.Arg*31, q.Arg*57+11, q.Arg*91+29)}, files)
+		return "first copy\n" + editWords(f.Content, q.Edits[:1]) + "\nsecond copy\n" + second + "\nthe end\n", fmt.Sprintf("%s twice (one word changed / filler inserted)", f.Name)
 	case "inserted":
 		// filler words inserted inside the text: every word of the license is still there (token coverage stays
 		// complete) while the edit distance grows, so the confidence sinks below a high threshold
